@@ -55,7 +55,7 @@ class StdVector(Plugin):
         return ct.replace('const ', '').strip().startswith('struct v_vec_')
 
     # ---- iterators: T* (forward) / T* one past the element (reverse) ----
-    IT_RE = re.compile(r'__normal_iterator<(?:const )?(.*?) \*(?:const)?, *std::vector<')
+    IT_RE = re.compile(r'__normal_iterator<(?:const )?(.*?) ?\*(?:const)?, *std::vector<')
     DQ_RE = re.compile(r'_Deque_iterator<(.*?), *(?:const )?\1 *&, *(?:const )?\1 *\*>')
     def iter_elem(self, qt):
         q = qt.replace('std::__cxx11::', 'std::')
@@ -162,7 +162,7 @@ class StdVector(Plugin):
                 h = lam.replace('__lambda', '__find_if'); test = '%s(%s)' % (lam, ', '.join(an + ['&first[i]']))
             else:
                 self.find_no = getattr(self, 'find_no', 0); h = '%s__find%d' % (unit.cur, self.find_no); self.find_no += 1
-                is_rec = elem.startswith('struct ')
+                is_rec = elem.startswith('struct ') and not elem.strip().endswith('*')
                 plist = ['%s %sval' % (elem, '*' if is_rec else '')]; largs = [unit.addr_of(args[2]) if is_rec else unit.expr(args[2])]
                 # element equality: operator== of the element type, restated by the spec as V_EQ_<elem>(a, b) for records
                 test = ('V_EQ_%s(&first[i], val)' % elem[len('struct '):]) if is_rec else '(first[i] == val)'
@@ -172,8 +172,10 @@ class StdVector(Plugin):
                 if k in unit.spec: unit.used_keys.add(k)
             it = unit.spec.get(('ghost', h, 'iter')) or ''
             if ('ghost', h, 'iter') in unit.spec: unit.used_keys.add(('ghost', h, 'iter'))
-            body = '  size_t n = (size_t)(last - first), i = 0;\n  %s\n  for (; i < n; ++i)\n%s  {\n    %s\n    if (%s) return first + i;\n  }\n  return last;\n' % (
-                ent, ''.join('  ' + l + '\n' for l in lc.strip('\n').split('\n')) if lc else '', it, test)
+            hit = unit.spec.get(('ghost', h, 'hit')) or ''
+            if ('ghost', h, 'hit') in unit.spec: unit.used_keys.add(('ghost', h, 'hit'))
+            body = '  size_t n = (size_t)(last - first), i = 0;\n  %s\n  for (; i < n; ++i)\n%s  {\n    %s\n    if (%s) { %s return first + i; }\n  }\n  return last;\n' % (
+                ent, ''.join('  ' + l + '\n' for l in lc.strip('\n').split('\n')) if lc else '', it, test, hit)
             unit.add_helper(h, proto, proto + '\n{\n' + body + '}\n')
             return '%s(%s)' % (h, ', '.join([unit.expr(args[0]), unit.expr(args[1])] + largs))
         if name == 'remove_if' and len(args) == 3 and self.node_iter(args[0]):
@@ -232,6 +234,10 @@ class StdVector(Plugin):
         ce = unit.strip_tmp(ks[0]) if ks else None
         if ce is None or (ce['kind'] == 'CXXConstructExpr' and not unit.kids(ce)):
             unit.w(p + '%s_init(&%s);' % (cn, name))
+        elif ce['kind'] == 'CXXConstructExpr' and len(unit.kids(ce)) == 1 and self._cn(unit, unit.kids(ce)[0]) == cn and self.decls.get(cn) not in self.abstract and self.decls.get(cn) not in self.fixed:
+            # copy construction from another vector of the same type
+            unit.w(p + '%s_init(&%s);' % (cn, name))
+            unit.w(p + '%s_assign(&%s, %s);' % (cn, name, unit.addr_of(unit.kids(ce)[0])))
         else:
             raise Unsupported('std::vector local with initialiser (in %s)' % unit.cur)
         unit.scopes[-1]['vars'].append('%s_destroy(&%s);' % (cn, name))
@@ -371,6 +377,9 @@ class Syscalls(Plugin):
         return None
     def type_for(self, name, unit):
         if name in ('va_list', '__builtin_va_list', '__gnuc_va_list', 'std::va_list'): return 'v_va_list'
+        return None
+    def enum_constant(self, name):
+        if re.match(r'^EPOLL[A-Z_]+$', name): return name       # <sys/epoll.h> enumerators: the C header supplies them
         return None
 
 
